@@ -40,7 +40,8 @@ LEVEL_TEXT = ("Seeded shapes (dense, thinned, emptied-and-refilled; small "
               "implementations, transient and stored) x seeded queries: "
               "range methods with every bound class and flag combination in "
               "positional and keyword form, minKey/maxKey with bounds, and "
-              "len/index/negative index/slice/iteration probes on lazy "
+              "len/index/negative index (also far beyond a C int)/slice/"
+              "iteration probes on lazy "
               "sequences, each compared with the list the reference model "
               "implies. Sampling.")
 
